@@ -308,6 +308,8 @@ impl<T: Send> UnboundedShared<T> {
       if next.is_null() {
         return None;
       }
+      #[cfg(all(loom, excsn_fibre_verif))]
+      crate::internal::verif_shadow::write((*next).val.get() as usize); // verification seam H10
       let value = (*(*next).val.get()).take().unwrap();
       c.tail = next;
       retire_node(tail);
